@@ -575,8 +575,10 @@ void Ports::dispatch(const char *m, rtosc::RtData &d, bool base_dispatch) const
                 if(!rtosc_match(port.name, m, &m_end))
                     continue;
                 //a location that does not fit is not dispatched
+                //(what gets appended: the matched part of the message, or
+                // the port's name without its argument specification)
                 if((strchr(port.name,'#') ? (size_t)(m_end - m)
-                                          : strlen(port.name)) >= loc_left)
+                                          : strcspn(port.name, ":")) >= loc_left)
                     continue;
                 if(!port.ports)
                     d.matches++;
@@ -635,7 +637,7 @@ void Ports::dispatch(const char *m, rtosc::RtData &d, bool base_dispatch) const
             if(__builtin_expect(impl->hard_match(port_num, m), 1)) {
                 const Port &port = ports[impl->remap[t]];
                 //a location that does not fit is not dispatched
-                if((impl->enump()[port_num] ? (size_t)len + 1
+                if((impl->enump()[port_num] ? (size_t)len
                                     : impl->fixed[port_num].length()) >= loc_left)
                     return;
                 if(!port.ports)
